@@ -58,6 +58,12 @@ PROPS = {
         "lean_modules": ["C16"],
         "rule": "the programs of the C01, C02, C03, C04, C05 and C13 generators that build a column-major tensor (both constructors: column-major over the raw backing, converting a row-major sequence) + the arithmetic / comparison / min-max / unary matrices with every operand and the reuse / incr destination drawn independently from {column-major raw, column-major converting, lazily transposed column-major, row-major contiguous, lazily transposed, sliced}, at least one operand column-major; results are compared with the specification on logical contents (= the row-major run)",
     },
+    "C18": {
+        "lean_modules": ["C18"],
+        "mode": "race",
+        "rule": "sets of 2-4 (thorough: up to 16) goroutines; a shared prefix builds read-only tensors in three layouts (contiguous, lazily transposed, sliced); every goroutine runs a seeded program of reads (dump, At sweep, iteration, slicing, Clone, Materialize, safe arithmetic / comparison / unary operations on the shared tensors) and of writes to its own private tensors; harness built with -race, run under GOMAXPROCS 1,2,4,16 with seeded Gosched injection and repetitions; every goroutine's observations are compared with the sequential model run of prefix+its program; any race report or divergence is a violation",
+        "assumptions": ["the Go race detector only reports races that occur in the explored schedules; the Lean theorem is about interleavings of the abstract effect model, not about the Go memory model"],
+    },
     "C20": {
         "lean_modules": ["C20"],
         "builds": [["default", "verif"], ["noasm", "verif noasm"], ["inplace", "verif inplacetranspose"]],
